@@ -25,9 +25,25 @@ LOG_ARG_MAX = "0.7788007830714049"  # exp(-1/4): 1/|log y| <= 4
 LOG1P_E_MAX = "0.9"  # e/((1-e)|log(1-e)|) <= 4 for e <= 0.9
 
 
+def _numpy_constants(it):
+    """numpy as far as utils.py may use it for scalar helpers: machine constants of float64 (exact values) and the float type"""
+    import numpy as _np
+    from ..pyvc import Namespace, TypeTag
+
+    class _FInfo:
+        def __init__(self, kind):
+            self.eps, self.tiny, self.max, self.min = float(_np.finfo(_np.float64).eps), float(_np.finfo(_np.float64).tiny), float(_np.finfo(_np.float64).max), float(_np.finfo(_np.float64).min)
+            self.smallest_normal = self.tiny
+    f64 = TypeTag("float64", lambda o: isinstance(o, float), lambda ex, x=0.0: float(x))
+    if "numpy" not in it.ext_modules:
+        it.ext_modules["numpy"] = Namespace("numpy", finfo=Native(lambda ex, kind=None: _FInfo(kind), "np.finfo (IEEE binary64 constants)"), float64=f64,
+                                            ndarray=TypeTag("ndarray", lambda o: False), inf=float("inf"), nan=float("nan"), pi=3.141592653589793)
+
+
 def interp_for(run, ieee):
     it = Interp(run, ieee=ieee, timeout_ms=30000)
     mathlib.install(it)
+    _numpy_constants(it)
     if ieee:
         # record libm calls for the conditioning / overflow obligations
         m = it.ext_modules["math"]
